@@ -406,11 +406,11 @@ def macho_structural(rng, tier):
     DWARF-deferred entries; probed at every function boundary +-1 and inside, both frame kinds"""
     import machotruth as mt
     out = []
-    for rep in range(4 if tier == "quick" else 40):
+    for rep in range(8 if tier == "quick" else 40):
         arch = "x86" if rep % 2 == 0 else "a64"
         s = Script(arch, "may" if rep % 4 < 2 else "must")
         prog = mt.make_program(rng, arch, 6)
-        kind = rng.choice(["text-short", "text-late", "no-text", "plain"])
+        kind = ["text-short", "text-late", "no-text", "plain"][(rep // 2) % 4]       # every kind on both architectures
         full = prog["text"]
         if kind == "text-short":
             prog = dict(prog, text=full[: rng.range(1, len(full) - 1)])
